@@ -209,6 +209,11 @@ class SpecEnv:
             "ite": lambda c, a, b: a if c else b, "allocated": lambda o: True,
             "__snap": self.snapshot,
         }
+        for cname in ("TestNode", "TestWorker", "TestSwarm", "TestObject", "NetObject", "VMObject", "ImageObject",
+                      "EdgeRegister", "Params"):
+            c = self.b.cls_of(cname)
+            if c is not None:
+                ns[cname] = c
         ns.update(self.params)
         return ns
 
@@ -221,6 +226,9 @@ class OldRewriter(ast.NodeTransformer):
 
     def visit_Call(self, node):
         self.generic_visit(node)
+        if isinstance(node.func, ast.Name) and node.func.id == "implies" and len(node.args) == 2:
+            # lazy implication: the consequent is only evaluated when the antecedent holds
+            return ast.BoolOp(op=ast.Or(), values=[ast.UnaryOp(op=ast.Not(), operand=node.args[0]), node.args[1]])
         if isinstance(node.func, ast.Name) and node.func.id == "old" and len(node.args) == 1:
             args = ast.arguments(posonlyargs=[], args=[ast.arg(arg=p) for p in self.pnames], kwonlyargs=[],
                                  kw_defaults=[], defaults=[
